@@ -78,7 +78,7 @@ Section Sound.
   Proof.
     intros Hh _ b s Hs. destruct (den res x) eqn:Ed.
     - destruct (typed_head_range _ _ _ _ _ _ Hh Hs Ed) as (z & -> & Hr).
-      left. exists z. repeat split; try assumption. reflexivity.
+      left. exists z. repeat split; assumption || reflexivity.
     - right; congruence.
     - right; congruence.
     - right; congruence.
@@ -177,5 +177,417 @@ Section Sound.
   Proof.
     unfold teq, sexp_eqb. intros H. apply dec2b_spec in H.
     rewrite <- (norm_sound res x), <- (norm_sound res y), H. reflexivity.
+  Qed.
+
+  (* ------------------------------------------------------------------ simulation *)
+  Fixpoint scoped (n : nat) (x : sexp) : Prop :=
+    match x with
+    | SRes k => (k < n)%nat
+    | SBin _ _ a b => scoped n a /\ scoped n b
+    | SUn _ _ a | SCast _ a | SAddr a => scoped n a
+    | _ => True
+    end.
+  Lemma scoped_mono n n' x : (n <= n')%nat -> scoped n x -> scoped n' x.
+  Proof. intros Hn. induction x; simpl; intuition; lia. Qed.
+  Lemma den_app res r2 x : scoped (List.length res) x -> den (res ++ r2) x = den res x.
+  Proof.
+    induction x; simpl; intros H; try reflexivity.
+    - rewrite nth_error_app1 by assumption. reflexivity.
+    - destruct H as [H1 H2]. rewrite IHx1, IHx2 by assumption. reflexivity.
+    - rewrite IHx by assumption. reflexivity.
+    - rewrite IHx by assumption. reflexivity.
+    - rewrite IHx by assumption. reflexivity.
+  Qed.
+
+  (* [B] is the initial environment of the side in question *)
+  Definition Inv (B : env) (res : list value) (sg : senv) (E : env) : Prop :=
+    (forall v x, sget sg v = Some x ->
+       scoped (List.length res) x /\ eval_ref m ge false E args (Loc v) = den res x) /\
+    (forall v, sget sg v = None -> env_get E v = env_get B v).
+  Definition InvD (res : list value) (D : list sexp) : Prop :=
+    forall d, In d D -> forall r2, exists v, den (res ++ r2) d = ODone v.
+
+  Lemma inv_res B res sg E y : Inv B res sg E -> Inv B (res ++ [y]) sg E.
+  Proof.
+    intros [H1 H2]. split; [|exact H2]. intros v x Hx. destruct (H1 v x Hx) as [Hs Hd]. split.
+    - eapply scoped_mono; [|exact Hs]. rewrite app_length. simpl. lia.
+    - rewrite den_app by assumption. exact Hd.
+  Qed.
+  Lemma invd_res res D y : InvD res D -> InvD (res ++ [y]) D.
+  Proof. intros H d Hd r2. rewrite <- app_assoc. apply H. exact Hd. Qed.
+
+  Lemma eval_ref_loc_eq E E' v : env_get E v = env_get E' v ->
+    eval_ref m ge false E args (Loc v) = eval_ref m ge false E' args (Loc v).
+  Proof. intros H. simpl. rewrite H. reflexivity. Qed.
+
+  Lemma inv_push B res sg E v x y :
+    Inv B res sg E -> scoped (List.length res) x ->
+    eval_ref m ge false ((v, y) :: E) args (Loc v) = den res x ->
+    Inv B res ((v, x) :: sg) ((v, y) :: E).
+  Proof.
+    intros [H1 H2] Hs Hd. split.
+    - intros v2 x2. simpl sget. destruct (Pos.eqb_spec v v2).
+      + subst. intros Hx. inversion Hx; subst. split; assumption.
+      + intros Hx. destruct (H1 v2 x2 Hx) as [Ha Hb]. split; [exact Ha|].
+        rewrite eval_ref_skip; [exact Hb|]. unfold ref_is. congruence.
+    - intros v2. simpl sget. destruct (Pos.eqb_spec v v2); [discriminate|].
+      intros Hx. simpl. destruct (Pos.eqb_spec v v2); [congruence|]. apply H2. exact Hx.
+  Qed.
+
+  Lemma sym_sound res sg E r : Inv e0 res sg E ->
+    eval_ref m ge false E args r = den res (sym sg r) /\ scoped (List.length res) (sym sg r).
+  Proof.
+    intros [H1 H2]. destruct r; simpl sym; try (split; [reflexivity|exact I]).
+    destruct (sget sg v) eqn:Es.
+    - destruct (H1 v s Es) as [Ha Hb]. split; assumption.
+    - split; [|exact I]. simpl den. apply eval_ref_loc_eq. apply H2. exact Es.
+  Qed.
+
+  Variable e0' : env.
+  Variable rho : list (vid * vid).
+  Definition ren_ok : Prop := forall v' v, rget rho v' = Some v ->
+    eval_ref m ge false e0' args (Loc v') = eval_ref m ge false e0 args (Loc v).
+  Hypothesis Hren : ren_ok.
+
+  Lemma sym'_sound res sg E r x : Inv e0' res sg E -> sym' rho sg r = Some x ->
+    eval_ref m ge false E args r = den res x /\ scoped (List.length res) x.
+  Proof.
+    intros [H1 H2] Hx. destruct r; simpl in Hx; try discriminate.
+    - destruct (sget sg v) eqn:Es.
+      + inversion Hx; subst. destruct (H1 v x Es) as [Ha Hb]. split; assumption.
+      + destruct (rget rho v) eqn:Er; [|discriminate]. inversion Hx; subst.
+        split; [|exact I].
+        transitivity (eval_ref m ge false e0' args (Loc v));
+          [apply eval_ref_loc_eq; apply H2; exact Es | exact (Hren _ _ Er)].
+    - inversion Hx; subst. split; [reflexivity|exact I].
+    - inversion Hx; subst. split; [reflexivity|exact I].
+  Qed.
+
+  Lemma eval_int_as E r : eval_int m ge E args r = as_int (eval_ref m ge false E args r).
+  Proof. reflexivity. Qed.
+
+  (* a pure instruction steps like the denotation of its term *)
+  Definition steps_as (g : func) (E : env) (s : st) (i : instr) (res : list value) (v : vid) (x : sexp) : Prop :=
+    step_simple c m ge g args E s i = (y <~ den res x ;; ODone ((v, y) :: E, s)).
+
+  Lemma step_bin_den g E s res v n t o a b xa xb :
+    eval_ref m ge false E args a = den res xa -> eval_ref m ge false E args b = den res xb ->
+    steps_as g E s (IBinop v n t o a b) res v (SBin t o xa xb).
+  Proof.
+    intros Ha Hb. unfold steps_as. cbn [step_simple den]. rewrite !eval_int_as, Ha, Hb.
+    destruct (as_int (den res xa)); cbn [obind]; try reflexivity.
+    destruct (as_int (den res xb)); cbn [obind]; try reflexivity.
+    destruct (eval_binop c t o a0 a1); reflexivity.
+  Qed.
+  Lemma step_un_den g E s res v n t o a xa :
+    eval_ref m ge false E args a = den res xa -> steps_as g E s (IUnop v n t o a) res v (SUn t o xa).
+  Proof.
+    intros Ha. unfold steps_as. cbn [step_simple den]. rewrite !eval_int_as, Ha.
+    destruct (as_int (den res xa)); cbn [obind]; try reflexivity.
+    destruct (eval_unop c t o a0); reflexivity.
+  Qed.
+  Lemma step_cast_den g E s res v n t a xa :
+    eval_ref m ge false E args a = den res xa -> steps_as g E s (ICast v n t a) res v (SCast t xa).
+  Proof.
+    intros Ha. unfold steps_as. cbn [step_simple den]. rewrite Ha.
+    destruct (den res xa); reflexivity.
+  Qed.
+  Lemma step_addr_den g E s res v n a xa :
+    eval_ref m ge false E args a = den res xa -> steps_as g E s (IAddrOf v n a) res v (SAddr xa).
+  Proof.
+    intros Ha. unfold steps_as. cbn [step_simple den]. rewrite Ha.
+    destruct (den res xa); cbn [obind]; try reflexivity.
+    try (destruct a0; reflexivity).
+  Qed.
+  Lemma step_const_den g E s res v n t k : steps_as g E s (IConst v n t k) res v (SConst t k).
+  Proof. unfold steps_as. cbn [step_simple den]. destruct (eval_const c t k); reflexivity. Qed.
+
+  (* values produced by pure terms other than SUndef / leaves are never Vundef *)
+  Definition pure_head (x : sexp) : bool :=
+    match x with SConst _ _ | SBin _ _ _ _ | SUn _ _ _ | SCast _ _ | SAddr _ => true | _ => false end.
+  Lemma pure_not_undef res x y : pure_head x = true -> den res x = ODone y -> y <> Vundef.
+  Proof.
+    destruct x; simpl; try discriminate; intros _ H.
+    - unfold eval_const in H. destruct k.
+      + destruct (wrap_ty c t z); [inversion H; discriminate|destruct (ty_is_float t); discriminate].
+      + destruct (ty_is_float t); [inversion H; discriminate|discriminate].
+    - destruct (as_int (den res x1)); simpl in H; try discriminate.
+      destruct (as_int (den res x2)); simpl in H; try discriminate.
+      destruct (eval_binop c t o a a0); simpl in H; try discriminate. inversion H; discriminate.
+    - destruct (as_int (den res x)); simpl in H; try discriminate.
+      destruct (eval_unop c t o a); simpl in H; try discriminate. inversion H; discriminate.
+    - destruct (den res x); simpl in H; try discriminate.
+      destruct a; simpl in H; try discriminate.
+      + destruct (wrap_ty c t z); [inversion H; discriminate|destruct (ty_is_float t); discriminate].
+      + destruct (ty_is_blob t); discriminate.
+    - destruct (den res x); simpl in H; try discriminate.
+      destruct a; try discriminate. inversion H; discriminate.
+  Qed.
+
+  Lemma read_bound E v y : y <> Vundef -> eval_ref m ge false ((v, y) :: E) args (Loc v) = ODone y.
+  Proof. intros H. simpl. rewrite Pos.eqb_refl. destruct y; congruence. Qed.
+
+  Lemma invd_push res D x y : InvD res D -> scoped (List.length res) x -> den res x = ODone y ->
+    InvD res (norm c f x :: D).
+  Proof.
+    intros HD Hs Hd d [<-|Hin] r2; [|apply HD; exact Hin].
+    exists y. rewrite norm_sound, den_app by assumption. exact Hd.
+  Qed.
+
+  Lemma inv_push_pure B res sg E v x y :
+    Inv B res sg E -> scoped (List.length res) x -> pure_head x = true -> den res x = ODone y ->
+    Inv B res ((v, x) :: sg) ((v, y) :: E).
+  Proof.
+    intros HI Hs Hp Hd. apply inv_push; try assumption.
+    rewrite read_bound; [symmetry; exact Hd|]. eapply pure_not_undef; eassumption.
+  Qed.
+  Lemma inv_push_undef B res sg E v :
+    Inv B res sg E -> Inv B res ((v, SUndef) :: sg) ((v, Vundef) :: E).
+  Proof.
+    intros HI. apply inv_push; [exact HI|exact I|]. simpl. rewrite Pos.eqb_refl. reflexivity.
+  Qed.
+
+  Ltac absorb_step IH H Hrun HI HD Hst Hsc :=
+    unfold steps_as in Hst; cbn [run_simple] in Hrun; rewrite Hst in Hrun;
+    match type of Hrun with context [den ?res ?x] =>
+      destruct (den res x) as [y| | | |] eqn:Ed; cbn [obind] in Hrun; try discriminate Hrun;
+      eapply IH; [exact H | eapply inv_push_pure; [exact HI|exact Hsc|reflexivity|exact Ed]
+                 | eapply invd_push; [exact HD|exact Hsc|exact Ed] | exact Hrun]
+    end.
+
+  Lemma absorb_sound res : forall l sg D E s sg1 D1 r e1 s1,
+    absorb c f sg D l = (sg1, D1, r) ->
+    Inv e0 res sg E -> InvD res D ->
+    run_simple c m ge f args l E s = ODone (e1, s1) ->
+    exists E2, run_simple c m ge f args r E2 s = ODone (e1, s1) /\ Inv e0 res sg1 E2 /\ InvD res D1.
+  Proof.
+    induction l as [|i l IH]; intros sg D E s sg1 D1 r e1 s1 H HI HD Hrun.
+    - simpl in H. inversion H; subst. exists E. split; [assumption|split; assumption].
+    - cbn [absorb] in H. destruct (is_phi_i i) eqn:Ep.
+      + destruct i; try discriminate Ep. cbn [run_simple step_simple obind] in Hrun.
+        eapply IH; eassumption.
+      + destruct (sym_pure sg i) as [[v x]|] eqn:Esp.
+        * destruct i; simpl in Esp; try discriminate Esp; inversion Esp; subst; clear Esp; cbn iota in H.
+          -- pose proof (step_const_den f E s res v n t c0) as Hst.
+             absorb_step IH H Hrun HI HD Hst I.
+          -- destruct (sym_sound res sg E a HI) as [Ha Hsa]. destruct (sym_sound res sg E b HI) as [Hb Hsb].
+             pose proof (step_bin_den f E s res v n t o a b _ _ Ha Hb) as Hst.
+             absorb_step IH H Hrun HI HD Hst (conj Hsa Hsb).
+          -- destruct (sym_sound res sg E a HI) as [Ha Hsa].
+             pose proof (step_un_den f E s res v n t o a _ Ha) as Hst.
+             absorb_step IH H Hrun HI HD Hst Hsa.
+          -- destruct (sym_sound res sg E a HI) as [Ha Hsa].
+             pose proof (step_cast_den f E s res v n t a _ Ha) as Hst.
+             absorb_step IH H Hrun HI HD Hst Hsa.
+          -- destruct (sym_sound res sg E a HI) as [Ha Hsa].
+             pose proof (step_addr_den f E s res v n a _ Ha) as Hst.
+             absorb_step IH H Hrun HI HD Hst Hsa.
+          -- cbn [run_simple step_simple obind] in Hrun.
+             eapply IH; [exact H|apply inv_push_undef; exact HI|exact HD|exact Hrun].
+        * inversion H; subst. exists E. split; [assumption|split; assumption].
+  Qed.
+
+  Lemma defined_den res D x : InvD res D -> defined_in c f D x = true -> exists y, den res x = ODone y.
+  Proof.
+    unfold defined_in. intros HD H. apply Bool.orb_true_iff in H. destruct H as [H|H].
+    - destruct x; simpl in H; try discriminate. simpl. destruct (eval_const c t k); try discriminate. eauto.
+    - apply existsb_exists in H. destruct H as (d & Hin & He). apply dec2b_spec in He.
+      destruct (HD _ Hin []) as [y Hy]. rewrite app_nil_r, <- He, norm_sound in Hy. eauto.
+  Qed.
+
+  Ltac absorb'_step IH H HI HD Hst Hsc :=
+    match type of H with (if defined_in _ _ ?D ?x then _ else _) = _ =>
+      destruct (defined_in c f D x) eqn:Edf; [|discriminate H];
+      destruct (defined_den _ _ _ HD Edf) as [y Ed];
+      unfold steps_as in Hst; cbn [run_simple]; rewrite Hst, Ed; cbn [obind];
+      eapply IH; [exact H | eapply inv_push_pure; [exact HI|exact Hsc|reflexivity|exact Ed]]
+    end.
+
+  Lemma absorb'_sound res D : InvD res D -> forall l sg E s sg1 r,
+    absorb' c f rho D sg l = Some (sg1, r) -> Inv e0' res sg E ->
+    exists E2, run_simple c m ge f' args l E s = run_simple c m ge f' args r E2 s /\ Inv e0' res sg1 E2.
+  Proof.
+    intros HD. induction l as [|i l IH]; intros sg E s sg1 r H HI.
+    - simpl in H. inversion H; subst. exists E. split; [reflexivity|assumption].
+    - cbn [absorb'] in H. destruct (is_phi_i i) eqn:Ep.
+      + destruct i; try discriminate Ep. cbn [run_simple step_simple obind]. eapply IH; eassumption.
+      + destruct (sym_pure' rho sg i) as [[[v x]|]|] eqn:Esp.
+        * destruct i; simpl in Esp; try discriminate Esp.
+          -- inversion Esp; subst; clear Esp; cbn iota in H.
+             pose proof (step_const_den f' E s res v n t c0) as Hst.
+             absorb'_step IH H HI HD Hst I.
+          -- destruct (sym' rho sg a) as [xa|] eqn:Ea; [|discriminate Esp].
+             destruct (sym' rho sg b) as [xb|] eqn:Eb; [|discriminate Esp].
+             inversion Esp; subst; clear Esp; cbn iota in H.
+             destruct (sym'_sound res sg E a xa HI Ea) as [Ha Hsa].
+             destruct (sym'_sound res sg E b xb HI Eb) as [Hb Hsb].
+             pose proof (step_bin_den f' E s res v n t o a b _ _ Ha Hb) as Hst.
+             absorb'_step IH H HI HD Hst (conj Hsa Hsb).
+          -- destruct (sym' rho sg a) as [xa|] eqn:Ea; [|discriminate Esp].
+             inversion Esp; subst; clear Esp; cbn iota in H.
+             destruct (sym'_sound res sg E a xa HI Ea) as [Ha Hsa].
+             pose proof (step_un_den f' E s res v n t o a _ Ha) as Hst.
+             absorb'_step IH H HI HD Hst Hsa.
+          -- destruct (sym' rho sg a) as [xa|] eqn:Ea; [|discriminate Esp].
+             inversion Esp; subst; clear Esp; cbn iota in H.
+             destruct (sym'_sound res sg E a xa HI Ea) as [Ha Hsa].
+             pose proof (step_cast_den f' E s res v n t a _ Ha) as Hst.
+             absorb'_step IH H HI HD Hst Hsa.
+          -- destruct (sym' rho sg a) as [xa|] eqn:Ea; [|discriminate Esp].
+             inversion Esp; subst; clear Esp; cbn iota in H.
+             destruct (sym'_sound res sg E a xa HI Ea) as [Ha Hsa].
+             pose proof (step_addr_den f' E s res v n a _ Ha) as Hst.
+             absorb'_step IH H HI HD Hst Hsa.
+          -- inversion Esp; subst; clear Esp; cbn iota in H.
+             cbn [run_simple step_simple obind].
+             eapply IH; [exact H|apply inv_push_undef; exact HI].
+        * discriminate H.
+        * inversion H; subst. exists E. split; [reflexivity|assumption].
+  Qed.
+
+  Lemma teq'_sound res sg sg' E E' r r' :
+    Inv e0 res sg E -> Inv e0' res sg' E' -> teq' c f rho sg sg' r r' = true ->
+    eval_ref m ge false E' args r' = eval_ref m ge false E args r.
+  Proof.
+    unfold teq'. intros HI HI' H. destruct (sym' rho sg' r') eqn:Es; [|discriminate].
+    destruct (sym'_sound _ _ _ _ _ HI' Es) as [Ha _]. destruct (sym_sound res sg E r HI) as [Hb _].
+    rewrite Ha, Hb. symmetry. apply teq_den. exact H.
+  Qed.
+
+  Lemma load_not_undef t s p y : load_val c t s p = ODone y -> y <> Vundef.
+  Proof.
+    unfold load_val. destruct (scalar_bytes c t); simpl; try discriminate.
+    destruct (read_bytes (s_mem s) p (Z.to_nat a)); try discriminate.
+    destruct (ty_is_float t); [intros H; inversion H; discriminate|].
+    destruct (wrap_ty c t (le_decode l)); [intros H; inversion H; discriminate|discriminate].
+  Qed.
+
+  Lemma match_effect_sound res sg sg' E E' s i i' r e1 s1 :
+    Inv e0 res sg E -> Inv e0' res sg' E' ->
+    match_effect c f f' rho sg sg' i i' = Some r ->
+    step_simple c m ge f args E s i = ODone (e1, s1) ->
+    match r with
+    | Some (v, v') => exists y, y <> Vundef /\ e1 = (v, y) :: E /\
+                                step_simple c m ge f' args E' s i' = ODone ((v', y) :: E', s1)
+    | None => e1 = E /\ step_simple c m ge f' args E' s i' = ODone (E', s1)
+    end.
+  Proof.
+    intros HI HI' Hm Hst.
+    destruct i; simpl in Hm; try discriminate Hm; destruct i'; try discriminate Hm.
+    - (* load *)
+      destruct (ty_eqb t t0 && teq' c f rho sg sg' addr addr0) eqn:Ec; [|discriminate Hm].
+      inversion Hm; subst; clear Hm. apply Bool.andb_true_iff in Ec. destruct Ec as [Et Ea].
+      apply ty_eqb_spec in Et. subst t0. pose proof (teq'_sound _ _ _ _ _ _ _ HI HI' Ea) as Hr.
+      cbn [step_simple] in *. rewrite eval_int_as in *. rewrite Hr.
+      destruct (as_int (eval_ref m ge false E args addr)); cbn [obind] in *; try discriminate Hst.
+      destruct (load_val c t s a) eqn:El; cbn [obind] in *; try discriminate Hst.
+      inversion Hst; subst. exists a0. split; [eapply load_not_undef; eassumption|]. split; reflexivity.
+    - (* store *)
+      destruct (opt_ty_eqb (ref_ty f x) (ref_ty f' x0) && teq' c f rho sg sg' x x0 &&
+                teq' c f rho sg sg' addr addr0) eqn:Ec; [|discriminate Hm].
+      inversion Hm; subst; clear Hm. apply Bool.andb_true_iff in Ec. destruct Ec as [Ec Ea].
+      apply Bool.andb_true_iff in Ec. destruct Ec as [Et Ex].
+      pose proof (teq'_sound _ _ _ _ _ _ _ HI HI' Ea) as Hra.
+      pose proof (teq'_sound _ _ _ _ _ _ _ HI HI' Ex) as Hrx.
+      unfold opt_ty_eqb in Et. destruct (ref_ty f x) as [t|] eqn:E1; [|discriminate Et].
+      destruct (ref_ty f' x0) as [t'|] eqn:E2; [|discriminate Et]. apply ty_eqb_spec in Et. subst t'.
+      cbn [step_simple] in *. rewrite eval_int_as in *. rewrite Hra, Hrx, E2. rewrite E1 in Hst.
+      destruct (as_int (eval_ref m ge false E args addr)); cbn [obind of_opt] in *; try discriminate Hst.
+      destruct (eval_ref m ge false E args x); cbn [obind] in *; try discriminate Hst.
+      destruct (store_val c t s a a0); cbn [obind] in *; try discriminate Hst.
+      inversion Hst; subst. split; reflexivity.
+    - (* alloc *)
+      destruct ((size =? size0) && (align =? align0)) eqn:Ec; [|discriminate Hm].
+      inversion Hm; subst; clear Hm. apply Bool.andb_true_iff in Ec. destruct Ec as [Ea Eb].
+      apply Z.eqb_eq in Ea. apply Z.eqb_eq in Eb. subst.
+      cbn [step_simple] in *. destruct (size0 <=? 0); [discriminate Hst|].
+      destruct (do_alloc s (zeros size0) align0) as [a s']. inversion Hst; subst.
+      eexists. split; [|split; reflexivity]. discriminate.
+    - (* literal *)
+      destruct (dec2b (list_eq_dec Z.eq_dec) data data0) eqn:Ec; [|discriminate Hm].
+      inversion Hm; subst; clear Hm. apply dec2b_spec in Ec. subst.
+      cbn [step_simple] in *. destruct (do_alloc s data0 1) as [a s']. inversion Hst; subst.
+      eexists. split; [|split; reflexivity]. discriminate.
+    - (* copyblob *)
+      destruct ((amount =? amount0) && teq' c f rho sg sg' dst dst0 && teq' c f rho sg sg' src src0) eqn:Ec;
+        [|discriminate Hm].
+      inversion Hm; subst; clear Hm. apply Bool.andb_true_iff in Ec. destruct Ec as [Ec Es].
+      apply Bool.andb_true_iff in Ec. destruct Ec as [En Ed]. apply Z.eqb_eq in En. subst.
+      pose proof (teq'_sound _ _ _ _ _ _ _ HI HI' Ed) as Hrd.
+      pose proof (teq'_sound _ _ _ _ _ _ _ HI HI' Es) as Hrs.
+      cbn [step_simple] in *. rewrite !eval_int_as in *. rewrite Hrd, Hrs.
+      destruct (as_int (eval_ref m ge false E args dst)); cbn [obind] in *; try discriminate Hst.
+      destruct (as_int (eval_ref m ge false E args src)); cbn [obind] in *; try discriminate Hst.
+      destruct (amount0 <? 0); [discriminate Hst|].
+      destruct (read_bytes (s_mem s) a0 (Z.to_nat amount0)); [|discriminate Hst].
+      destruct (write_bytes (s_mem s) a l); [|discriminate Hst].
+      inversion Hst; subst. split; reflexivity.
+  Qed.
+
+  Lemma den_res_last res y : y <> Vundef -> den (res ++ [y]) (SRes (List.length res)) = ODone y.
+  Proof.
+    intros H. simpl. rewrite nth_error_app2 by lia. rewrite Nat.sub_diag. simpl. destruct y; congruence.
+  Qed.
+
+  Lemma inv_push_res B res sg E v y :
+    Inv B res sg E -> y <> Vundef ->
+    Inv B (res ++ [y]) ((v, SRes (List.length res)) :: sg) ((v, y) :: E).
+  Proof.
+    intros HI Hy. apply inv_push.
+    - apply inv_res. exact HI.
+    - simpl. rewrite app_length. simpl. lia.
+    - rewrite read_bound by assumption. symmetry. apply den_res_last. assumption.
+  Qed.
+
+  Lemma check_sound : forall fuel res sg sg' D k l l' outs E E' s e1 s1,
+    check c f f' fuel rho sg sg' D k l l' outs = true ->
+    k = List.length res -> Inv e0 res sg E -> Inv e0' res sg' E' -> InvD res D ->
+    run_simple c m ge f args l E s = ODone (e1, s1) ->
+    exists e1', run_simple c m ge f' args l' E' s = ODone (e1', s1) /\
+      forall r r', In (r, r') outs -> eval_ref m ge false e1' args r' = eval_ref m ge false e1 args r.
+  Proof.
+    induction fuel as [|n IH]; intros res sg sg' D k l l' outs E E' s e1 s1 H Hk HI HI' HD Hrun;
+      [discriminate H|].
+    cbn [check] in H.
+    destruct (absorb c f sg D l) as [[sg1 D1] r] eqn:Eab.
+    destruct (absorb' c f rho D1 sg' l') as [[sg1' r']|] eqn:Eab'; [|discriminate H].
+    destruct (absorb_sound res _ _ _ _ s _ _ _ _ _ Eab HI HD Hrun) as (E2 & Hrun2 & HI2 & HD2).
+    destruct (absorb'_sound res D1 HD2 _ _ _ s _ _ Eab' HI') as (E2' & Hrun2' & HI2').
+    rewrite Hrun2'.
+    destruct r as [|i rr]; destruct r' as [|i' rr']; try discriminate H.
+    - cbn [run_simple] in *. inversion Hrun2; subst. exists E2'. split; [reflexivity|].
+      intros r r' Hin. rewrite forallb_forall in H. specialize (H _ Hin). cbn [fst snd] in H.
+      eapply teq'_sound; eassumption.
+    - destruct (match_effect c f f' rho sg1 sg1' i i') as [[[v v']|]|] eqn:Em; try discriminate H.
+      + cbn [run_simple] in Hrun2.
+        destruct (step_simple c m ge f args E2 s i) as [[ea sa]| | | |] eqn:Est; cbn [obind] in Hrun2;
+          try discriminate Hrun2.
+        destruct (match_effect_sound _ _ _ _ _ _ _ _ _ _ _ HI2 HI2' Em Est) as (y & Hy & -> & Hst').
+        cbn [run_simple]. rewrite Hst'. cbn [obind].
+        subst k.
+        eapply (IH (res ++ [y])); [exact H| | | | |exact Hrun2].
+        * rewrite app_length. simpl. lia.
+        * apply inv_push_res; assumption.
+        * apply inv_push_res; assumption.
+        * apply invd_res. exact HD2.
+      + cbn [run_simple] in Hrun2.
+        destruct (step_simple c m ge f args E2 s i) as [[ea sa]| | | |] eqn:Est; cbn [obind] in Hrun2;
+          try discriminate Hrun2.
+        destruct (match_effect_sound _ _ _ _ _ _ _ _ _ _ _ HI2 HI2' Em Est) as (-> & Hst').
+        cbn [run_simple]. rewrite Hst'. cbn [obind].
+        eapply (IH res); [exact H|exact Hk|exact HI2|exact HI2'|exact HD2|exact Hrun2].
+  Qed.
+
+  Theorem check_block_sound : forall l l' outs s e1 s1,
+    check_block c f f' rho l l' outs = true ->
+    run_simple c m ge f args l e0 s = ODone (e1, s1) ->
+    exists e1', run_simple c m ge f' args l' e0' s = ODone (e1', s1) /\
+      forall r r', In (r, r') outs -> eval_ref m ge false e1' args r' = eval_ref m ge false e1 args r.
+  Proof.
+    intros l l' outs s e1 s1 H Hrun. unfold check_block in H.
+    eapply (check_sound _ [] [] [] [] O); try eassumption; try reflexivity.
+    - split; [intros v x Hx; discriminate Hx|reflexivity].
+    - split; [intros v x Hx; discriminate Hx|reflexivity].
+    - intros d [].
   Qed.
 End Sound.
